@@ -428,7 +428,17 @@ func c01cvRunWorld(r *verifkit.Run, w *c01cvWorld) {
 			"out_of_window_dropped_counter": dropped, "agent_log": ll}
 	}
 	if verdict == "cap" {
-		r.Inconclusive(fmt.Sprintf("conveyor world %d: not drained %d ms after the aggregator became healthy, but send activity never paused for %v: not decided", w.Index, drainMs, c01cvIdleBound))
+		var left []string
+		for _, s := range seconds {
+			if s.OnDisk || s.Queued {
+				left = append(left, fmt.Sprintf("%s:%d(sent %d, acked %d, queued %v, disk %v)", s.Class, s.Time, s.Sent, s.Acked, s.Queued, s.OnDisk))
+			}
+		}
+		agg.mu.Lock()
+		idle, reqs := time.Since(agg.lastActivity).Milliseconds(), agg.requests
+		agg.mu.Unlock()
+		r.Inconclusive(fmt.Sprintf("conveyor world %d (k=%d, p=%d): not drained %d ms after the aggregator became healthy, but send activity never paused for %v (last activity %d ms ago, %d requests, %d idle polls, max poll gap %v): not decided; left: %s",
+			w.Index, w.Senders, w.EraserPos, drainMs, c01cvIdleBound, idle, reqs, pollsIdle, maxGap, strings.Join(left, " ")))
 	}
 	if verdict == "stalled" && maxGap > 2*time.Second {
 		r.Inconclusive(fmt.Sprintf("conveyor world %d: harness itself was not scheduled for %v while waiting: machine overloaded, stall not decided", w.Index, maxGap))
@@ -525,13 +535,19 @@ func TestVerifC01Conveyor(t *testing.T) {
 		"non-trivial when the eraser was the longest waiter for an isolated second, or the second came in a burst / while the eraser was held / from disk / outside the window / with faulty answers; " +
 		"abstraction (senders, eraser start position, class, end state, plan length, preseed)")
 	r.Assume("conveyor unit: the shard's flusher is not running, so nothing but appendHistoricBucketsToSend signals the condition variable")
-	n := r.N(48, 240)
+	n := r.N(48, 144)                                   // 48 worlds at a time (race build: more of them starve each other)
+	if v := os.Getenv("VERIF_C01_CV_WORLDS"); v != "" { // debugging aid
+		fmt.Sscan(v, &n)
+	}
 	var wg sync.WaitGroup
+	sem := make(chan struct{}, 48)
 	for i := 0; i < n; i++ {
 		w := c01cvGenWorld(r.Rand(fmt.Sprintf("conveyor/world/%d", i)), i)
 		wg.Add(1)
 		go func() {
 			defer wg.Done()
+			sem <- struct{}{}
+			defer func() { <-sem }()
 			defer func() {
 				if p := recover(); p != nil {
 					r.Violation("C01/harness-panic/conveyor", fmt.Sprintf("panic in conveyor world %d: %v", w.Index, p), nil)
